@@ -29,10 +29,10 @@ import time
 HERE = os.path.dirname(os.path.dirname(os.path.abspath(__file__)))
 
 FILE_PROPS = {
-    "compute/reconciliation.py": ["C01", "C05", "C07", "C04", "C09", "C10"],
+    "compute/reconciliation.py": ["C01", "C05", "C07", "C04", "C09", "C10", "C12"],
     "compute/exhaustive.py": ["C01", "C05"],
-    "compute/super_reconciliation.py": ["C02", "C05", "C04", "C08", "C10", "C09"],
-    "compute/unordered_super_reconciliation.py": ["C03", "C05", "C04", "C08", "C10", "C09"],
+    "compute/super_reconciliation.py": ["C02", "C05", "C04", "C08", "C10", "C09", "C12"],
+    "compute/unordered_super_reconciliation.py": ["C03", "C05", "C04", "C08", "C10", "C09", "C12"],
     "model/reconciliation.py": ["C06", "C11", "C12", "C08", "C04", "C01", "C02", "C03"],
     "model/synteny.py": ["C11", "C12", "C09", "C02"],
     "model/tree_mapping.py": ["C11", "C12"],
